@@ -12,6 +12,7 @@ import (
 	"strings"
 
 	jose "github.com/go-jose/go-jose/v4"
+	"github.com/zitadel/oidc/v3/pkg/oidc"
 	"github.com/zitadel/oidc/v3/pkg/op"
 
 	"verif/sim/fixtures"
@@ -93,6 +94,78 @@ type OPConfig struct {
 	// NewForwardedOpenIDProvider) and take the login callback address from the library's helper (op.AuthCallbackURL,
 	// LegacyServer.AuthCallbackURL) instead of NewProvider and the endpoint value
 	PublicCtors bool
+	// Wrapped (router B): the application registers its own op.Server, a type that embeds *op.LegacyServer and overrides
+	// methods the way the interface allows: inputs are treated as read-only (VerifyAuthRequest works on and returns a copy
+	// of the request), results are new values (Response literals without a header map)
+	Wrapped bool
+}
+
+// appServer is an application's own op.Server built on the LegacyServer (what example/server does with its wrapper).
+type appServer struct {
+	*op.LegacyServer
+}
+
+func (s *appServer) VerifyAuthRequest(ctx context.Context, r *op.Request[oidc.AuthRequest]) (*op.ClientRequest[oidc.AuthRequest], error) {
+	// the request handed in stays as it was received; verification (and the merge of a request object) happens on a copy
+	data := *r.Data
+	data.Scopes = append(oidc.SpaceDelimitedArray(nil), r.Data.Scopes...)
+	cp := *r
+	cp.Data = &data
+	return s.LegacyServer.VerifyAuthRequest(ctx, &cp)
+}
+
+// plain returns the answer as a value of the application's own making: same data, no header map unless there are headers
+func plain(resp *op.Response, err error) (*op.Response, error) {
+	if err != nil || resp == nil {
+		return resp, err
+	}
+	if len(resp.Header) == 0 {
+		return &op.Response{Data: resp.Data}, nil
+	}
+	return &op.Response{Header: resp.Header.Clone(), Data: resp.Data}, nil
+}
+
+func (s *appServer) Health(ctx context.Context, r *op.Request[struct{}]) (*op.Response, error) {
+	return plain(s.LegacyServer.Health(ctx, r))
+}
+func (s *appServer) Ready(ctx context.Context, r *op.Request[struct{}]) (*op.Response, error) {
+	return plain(s.LegacyServer.Ready(ctx, r))
+}
+func (s *appServer) Discovery(ctx context.Context, r *op.Request[struct{}]) (*op.Response, error) {
+	return plain(s.LegacyServer.Discovery(ctx, r))
+}
+func (s *appServer) Keys(ctx context.Context, r *op.Request[struct{}]) (*op.Response, error) {
+	return plain(s.LegacyServer.Keys(ctx, r))
+}
+func (s *appServer) DeviceAuthorization(ctx context.Context, r *op.ClientRequest[oidc.DeviceAuthorizationRequest]) (*op.Response, error) {
+	return plain(s.LegacyServer.DeviceAuthorization(ctx, r))
+}
+func (s *appServer) CodeExchange(ctx context.Context, r *op.ClientRequest[oidc.AccessTokenRequest]) (*op.Response, error) {
+	return plain(s.LegacyServer.CodeExchange(ctx, r))
+}
+func (s *appServer) RefreshToken(ctx context.Context, r *op.ClientRequest[oidc.RefreshTokenRequest]) (*op.Response, error) {
+	return plain(s.LegacyServer.RefreshToken(ctx, r))
+}
+func (s *appServer) JWTProfile(ctx context.Context, r *op.Request[oidc.JWTProfileGrantRequest]) (*op.Response, error) {
+	return plain(s.LegacyServer.JWTProfile(ctx, r))
+}
+func (s *appServer) TokenExchange(ctx context.Context, r *op.ClientRequest[oidc.TokenExchangeRequest]) (*op.Response, error) {
+	return plain(s.LegacyServer.TokenExchange(ctx, r))
+}
+func (s *appServer) ClientCredentialsExchange(ctx context.Context, r *op.ClientRequest[oidc.ClientCredentialsRequest]) (*op.Response, error) {
+	return plain(s.LegacyServer.ClientCredentialsExchange(ctx, r))
+}
+func (s *appServer) DeviceToken(ctx context.Context, r *op.ClientRequest[oidc.DeviceAccessTokenRequest]) (*op.Response, error) {
+	return plain(s.LegacyServer.DeviceToken(ctx, r))
+}
+func (s *appServer) Introspect(ctx context.Context, r *op.Request[op.IntrospectionRequest]) (*op.Response, error) {
+	return plain(s.LegacyServer.Introspect(ctx, r))
+}
+func (s *appServer) UserInfo(ctx context.Context, r *op.Request[oidc.UserInfoRequest]) (*op.Response, error) {
+	return plain(s.LegacyServer.UserInfo(ctx, r))
+}
+func (s *appServer) Revocation(ctx context.Context, r *op.ClientRequest[oidc.RevocationRequest]) (*op.Response, error) {
+	return plain(s.LegacyServer.Revocation(ctx, r))
 }
 
 type OPNode struct {
@@ -154,7 +227,11 @@ func BuildOP(store *Store, cfg OPConfig) (*OPNode, error) {
 		if cfg.PublicCtors {
 			callback = ls.AuthCallbackURL()
 		}
-		h = op.RegisterLegacyServer(ls, op.AuthorizeCallbackHandler(provider), op.WithFallbackLogger(Discard))
+		var srv op.ExtendedLegacyServer = ls
+		if cfg.Wrapped {
+			srv = &appServer{LegacyServer: ls}
+		}
+		h = op.RegisterLegacyServer(srv, op.AuthorizeCallbackHandler(provider), op.WithFallbackLogger(Discard))
 	}
 	node := &OPNode{Provider: provider, Store: store, Storage: storage, Config: cfg, LoginPath: "/login"}
 	node.Handler = http.HandlerFunc(func(w http.ResponseWriter, r *http.Request) {
